@@ -1,0 +1,21 @@
+//! Observation hooks for external verification harnesses.
+//!
+//! Only compiled with the cargo feature `verif_hooks` (default off). The hooks record, in a
+//! thread-local log, the order in which the library iterates some hash-based collections.
+//! They never change a value or an order.
+
+use std::cell::RefCell;
+
+thread_local! {
+    static LOG: RefCell<Vec<(&'static str, String)>> = const { RefCell::new(Vec::new()) };
+}
+
+/// Record that the loop at `site` is visiting `item` now
+pub fn observe(site: &'static str, item: String) {
+    LOG.with(|l| l.borrow_mut().push((site, item)));
+}
+
+/// Take (and clear) the log of the current thread
+pub fn take() -> Vec<(&'static str, String)> {
+    LOG.with(|l| std::mem::take(&mut *l.borrow_mut()))
+}
